@@ -81,10 +81,10 @@ FormsAll ==
   \cup { InRange(Idx("int", 32, 1, 0, FALSE)), InRange(Idx("int", 64, 0, 0, FALSE)) }
 
 \* The forms of the lists of length 3: the plainest form of every category.  The set is the
-\* same in both tiers and closed under the simplification steps of the harness (replace an
-\* index by i64 0 / i32 0 / i32 1, a scalable vector by the fixed one, a vector operand by the
-\* zeroinitializer of its type), so that the minimal failing shape of a case does not depend
-\* on the tier.
+\* same in both tiers and, like FormsAll and Bases, closed under the simplification steps
+\* with which the harness minimises a failing case (drop an index, replace an index by
+\* i64 0 / i32 0 / i32 1, vector base -> pointer, address space 1 -> 0), so that the minimal
+\* failing shape of a case does not depend on the tier.
 Forms3 ==
   { Idx("int", 64, 0, 0, FALSE), Idx("int", 32, 0, 0, FALSE), Idx("int", 32, 1, 0, FALSE),
     Idx("zeroinit", 64, 0, 2, FALSE), Idx("zeroinit", 32, 0, 2, FALSE), Idx("zeroinit", 64, 0, 2, TRUE),
